@@ -346,7 +346,7 @@ def gen_cases(ctx):
     rng = ctx.rng
     quick = ctx.quick()
     cases = [(n, "curated", a) for n, a in CURATED]
-    n_clean, n_coll, n_greedy, n_mal = (80, 35, 45, 10) if quick else (1500, 500, 700, 100)
+    n_clean, n_coll, n_greedy, n_mal = (55, 25, 32, 8) if quick else (700, 250, 350, 50)
     for i in range(n_clean):
         cases.append(("clean%d" % i, "clean", gen_clean(rng)))
     for i in range(n_coll):
@@ -448,16 +448,25 @@ def _canon(v):
 PARSERS = [("lr", False), ("lr_ps", True), ("glr", None)]
 
 
-def _build(g, kind, ps, build_tree):
-    from parglare import GLRParser, Parser
+def _build(text, kind, ps, build_tree):
+    """fresh Grammar object per parser (an interrupted construction may leave a Grammar half
+    initialised); a Timeout under machine load is retried once with a generous budget"""
+    from parglare import GLRParser, Grammar, Parser
     from lib import impl
-    try:
-        with impl.time_limit(20), impl.quiet():
-            if kind == "glr":
-                return GLRParser(g, build_tree=build_tree), "ok"
-            return Parser(g, prefer_shifts=ps, prefer_shifts_over_empty=False, build_tree=build_tree), "ok"
-    except BaseException as e:  # noqa
-        return None, impl.exc_kind(e)
+    last = "Timeout"
+    for limit in (30, 180):
+        try:
+            with impl.time_limit(limit), impl.quiet():
+                g = Grammar.from_string(text)
+                if kind == "glr":
+                    return GLRParser(g, build_tree=build_tree), "ok", g
+                return Parser(g, prefer_shifts=ps, prefer_shifts_over_empty=False,
+                              build_tree=build_tree), "ok", g
+        except BaseException as e:  # noqa
+            last = impl.exc_kind(e)
+            if last != "Timeout":
+                break
+    return None, last, None
 
 
 def _retry(f, *args):
@@ -528,14 +537,14 @@ def _worker(job):
         out["dump_e"] = dump_grammar(gs["e"])
     res = {}
     if "s" in gs and "e" in gs:
-        gi_e = impl.GInfo(gs["e"])
         for kind, ps in PARSERS:
             r = {}
-            ps_p, r["cs"] = _build(gs["s"], "glr" if kind == "glr" else "lr", ps, False)
-            pe_p, r["ce"] = _build(gs["e"], "glr" if kind == "glr" else "lr", ps, True)
+            ps_p, r["cs"], _ = _build(texts["s"], "glr" if kind == "glr" else "lr", ps, False)
+            pe_p, r["ce"], ge = _build(texts["e"], "glr" if kind == "glr" else "lr", ps, True)
+            gi_e = impl.GInfo(ge) if ge is not None else None
             png_p = None
             if "ng" in gs and kind == "glr":
-                png_p, r["cng"] = _build(gs["ng"], "glr", ps, False)
+                png_p, r["cng"], _ = _build(texts["ng"], "glr", ps, False)
             k2 = "glr" if kind == "glr" else "lr"
             r["inputs"] = {}
             for w in job["inputs"]:
@@ -558,7 +567,7 @@ def gen_inputs(rng, a, exp, quick):
     alpha = [c for c in alpha if any(True for _ in [0])]
     maxlen = 3 if len(alpha) > 3 else 4
     base = ["".join(t) for n in range(maxlen + 1) for t in itertools.product(alpha, repeat=n)]
-    cap = 70 if quick else 260
+    cap = 55 if quick else 160
     if len(base) > cap:
         short = [s for s in base if len(s) <= 2]
         rest = [s for s in base if len(s) > 2]
@@ -634,39 +643,63 @@ def skeleton(t, acts):
     return [t[1], [skeleton(c, acts) for c in t[4]]]
 
 
-def first_diff(t1, t2, greedy, lhs_names, inner_first=False):
-    """None if equal; (end1, end2) if the first difference is a pair of nodes of the same greedy
-    helper rule starting at the same position with different ends; else "other".  Outermost-first
-    (pre-order) or innermost-first."""
+def elements(t, acts):
+    """element (and separator) subtrees of a helper node of the documented expansion"""
+    tag = acts[t[1]]
+    ch = t[4]
+    if tag == 2:
+        return [ch[0]]
+    if tag == 1:
+        return elements(ch[0], acts) + [ch[1]]
+    if tag == 3:
+        return elements(ch[0], acts) + [ch[1], ch[2]]
+    if tag in (4, 6):
+        if not ch:
+            return []
+        c = ch[0]
+        if c[0] == 1 and acts[c[1]] in (1, 2, 3):
+            return elements(c, acts)
+        return [c]
+    if tag == 5:
+        return []
+    return list(ch)
+
+
+def first_diff(t1, t2, greedy, lhs_names, acts, inner_first=False):
+    """None if equal; (end1, end2) if the trees first differ at two nodes of the same greedy
+    helper rule that start at the same position and end differently, and whatever differs
+    inside them is again only such a pair (outermost pair reported, or innermost with
+    inner_first); "other" for every other kind of difference."""
     if t1[0] == 0 or t2[0] == 0:
         return None if t1 == t2 else "other"
-    if t1[1] == t2[1] and t1[2] == t2[2]:
-        own = None
-        if t1[3] != t2[3]:
-            own = (t1[3], t2[3]) if greedy[t1[1]] else "descend"
-        if isinstance(own, tuple) and not inner_first:
-            return own
-        if len(t1[4]) != len(t2[4]):
-            return own if isinstance(own, tuple) else "other"
-        for c1, c2 in zip(t1[4], t2[4]):
-            d = first_diff(c1, c2, greedy, lhs_names, inner_first)
-            if d is not None:
-                if d == "other" and isinstance(own, tuple):
-                    return own
-                return d
-        return own if isinstance(own, tuple) else (None if own is None else "other")
     if greedy[t1[1]] and greedy[t2[1]] and lhs_names[t1[1]] == lhs_names[t2[1]] \
             and t1[2] == t2[2] and t1[3] != t2[3]:
-        return (t1[3], t2[3])
+        own = (t1[3], t2[3])
+        for e1, e2 in zip(elements(t1, acts), elements(t2, acts)):
+            d = first_diff(e1, e2, greedy, lhs_names, acts, inner_first)
+            if d is None:
+                continue
+            if d == "other":
+                return "other"
+            return d if inner_first else own
+        return own
+    if t1[1] == t2[1] and t1[2] == t2[2]:
+        if len(t1[4]) != len(t2[4]):
+            return "other"
+        for c1, c2 in zip(t1[4], t2[4]):
+            d = first_diff(c1, c2, greedy, lhs_names, acts, inner_first)
+            if d is not None:
+                return d
+        return None if t1[3] == t2[3] else "other"
     return "other"
 
 
-def munch_winner(trees, greedy, lhs_names, inner_first):
+def munch_winner(trees, greedy, lhs_names, acts, inner_first):
     n = len(trees)
     wins = [0] * n
     for i in range(n):
         for j in range(i + 1, n):
-            d = first_diff(trees[i], trees[j], greedy, lhs_names, inner_first)
+            d = first_diff(trees[i], trees[j], greedy, lhs_names, acts, inner_first)
             if not isinstance(d, tuple):
                 return None
             wins[i if d[0] > d[1] else j] += 1
@@ -802,7 +835,7 @@ def run(ctx):
                         m2.append((135, [rec["acts"], t]))
                         m2meta.append(("val", rec, r, kind, w, ti))
     o2 = common.model_run(m2)
-    nx, xok, xlog = common.coq_crosscheck("C13", m1 + m2, o1 + o2, ctx.rng, sample=60 if quick else 200)
+    nx, xok, xlog = common.coq_crosscheck("C13", m1 + m2, o1 + o2, ctx.rng, sample=40 if quick else 200)
     if not xok:
         ctx.violation("extraction cross-check failed: OCaml driver and vm_compute disagree",
                       {"log": xlog}, no_input=True)
@@ -982,13 +1015,14 @@ def run(ctx):
                                       % extra[:2], rep2, key="greedy-extra")
                     continue
                 # maximal munch, where the expansion's trees differ only in how much the greedy
-                # repetitions consume: for every two trees the first difference is a pair of nodes of
-                # the same greedy helper rule with the same start and different ends, and the tree that
-                # wins all comparisons is the same whether nested repetitions are compared outermost-
-                # or innermost-first (otherwise "as much as possible" is under-determined: no claim)
+                # repetitions consume: every two trees first differ at two nodes of the same greedy
+                # helper rule with the same start and different ends, their common elements differ (if
+                # at all) only in the same way, and the tree that wins all comparisons is the same
+                # whether nested repetitions are compared outermost- or innermost-first (otherwise "as
+                # much as possible" is under-determined and no claim is made)
                 if len(e[1]) > 1:
-                    b1 = munch_winner(e[1], rec["greedy"], rec["lhs_names"], False)
-                    b2 = munch_winner(e[1], rec["greedy"], rec["lhs_names"], True)
+                    b1 = munch_winner(e[1], rec["greedy"], rec["lhs_names"], rec["acts"], False)
+                    b2 = munch_winner(e[1], rec["greedy"], rec["lhs_names"], rec["acts"], True)
                     if b1 is not None and b1 == b2:
                         st["greedy_maxmunch_checked"] += 1
                         want = json.dumps(evals_e[b1])
